@@ -68,6 +68,13 @@ def generate(rng, tier, idx):
         shaped_muts = [{'m': 'rewrite', 'p': f_, 'c': 'edited ' + f_} for f_ in files_ if rng.random() < 0.8]
     else:
         shaped_muts = []
+    if rng.random() < 0.06 and op != 'cli-create':
+        # one listed file beyond the 1 MiB threshold of the hashing code (streamed in blocks instead of slurped): every
+        # one of its reads, the last one that only finds the end of the file included, is a fault site
+        topm_ = [m_ for m_ in g['manifests'] if m_['p'] == 'Manifest']
+        if topm_ and not any(t_['p'] == 'big.bin' for t_ in g['tree']):
+            g['tree'].append({'p': 'big.bin', 'k': 'file', 'prng': [rng.getrandbits(32), 1048576 + rng.choice([0, 1, 4096, 70000])]})
+            topm_[0]['entries'].append({'tag': 'DATA', 'path': 'big.bin', 'hashes': ['SHA256']})
     sc = {'prop': ID, 'order_key': '%016x' % rng.getrandbits(64), 'tree': g['tree'],
           'manifests': g['manifests'], 'op': op, 'muts': []}
     if op in ('verify', 'verify-sub', 'verify-kg', 'update') and rng.random() < 0.3:
